@@ -446,6 +446,9 @@ func tagsOf(in Input) []string {
 		for i, p := range parts {
 			if i < 2 && hasTopLevelAlternation(p) {
 				add("alternation")
+				if q := strings.TrimSuffix(strings.TrimPrefix(p, "^"), "$"); strings.HasPrefix(q, "(") && strings.HasSuffix(q, ")") {
+					add("alternation-of-groups")
+				}
 			}
 			if i < 2 && endsWithEscapedDollar(p) {
 				add("escaped-dollar")
@@ -510,7 +513,11 @@ func TestC13(t *testing.T) {
 		in.Tags = append(in.Tags, "corpus")
 		ins = append(ins, in)
 	}
-	rng := NewRand(Seed())
+	// common.NewRand(seed) starts the additive generator at seed*G+c and every draw adds G, so the
+	// streams of seeds k and k+1 are the same stream shifted by one draw: with one Fork per case,
+	// seed k+1 would replay the cases of seed k from the second one on.  Re-seeding from the first
+	// (mixed) output gives every seed a case set of its own.
+	rng := NewRand(NewRand(Seed()).U64())
 	thorough := strings.HasPrefix(strings.ToLower(getenv("VERIF_TIER")), "thorough") || getenv("VERIF_SEARCH") != ""
 	for i := 0; i < n; i++ {
 		in := gen(rng.Fork())
@@ -552,6 +559,11 @@ func TestC13(t *testing.T) {
 			}
 		}
 		col.Count("manager:" + in.Manager)
+		for _, tg := range tags {
+			if strings.HasPrefix(tg, "alternation") {
+				col.Count("family:" + tg)
+			}
+		}
 		col.Count(fmt.Sprintf("specs:%d", len(in.Specs)))
 		for _, op := range in.Ops {
 			col.Count("op:" + op.Kind)
